@@ -224,3 +224,42 @@ def run_with_edits(case, check_fm, pid):
 
 def edit_classes(case):
     return {"edit:" + e["label"] for e in case["edits"]}
+
+
+@st.composite
+def wide_group_cases(draw, names_strategy=None, max_members=24, sanitize=None, group_alone=False):
+    """A small model with one group of 10..max_members leaves under the root or under an optional child, bounds
+    drawn so that textual and numeric order often disagree ([2,10], [9,11]) - too many features for 2^n
+    enumeration, so the case carries its own selections: for every boundary count (min-1, min, max, max+1, 0, all)
+    the first and a drawn subset of that many members, with and without the features above the group."""
+    k = draw(st.integers(10, max_members))
+    if draw(st.booleans()):
+        lo, hi = draw(st.integers(2, 9)), draw(st.integers(10, k))
+    else:
+        lo = draw(st.integers(0, k))
+        hi = draw(st.integers(lo, k))
+    members = [build.feat(f"M{i}") for i in range(k)]
+    group = build.rel(lo, hi, members)
+    extra = build.feat("Opt")
+    if group_alone or draw(st.booleans()):       # group_alone: the group is the only relation of its owner
+        holder = build.feat("Holder", [group])
+        root = build.feat("Root", [build.rel(draw(st.integers(0, 1)), 1, [holder]), build.rel(0, 1, [extra])])
+        above = ["Root", "Holder"]
+    else:
+        root = build.feat("Root", [group, build.rel(0, 1, [extra])])
+        above = ["Root"]
+    ctcs = []
+    if draw(st.integers(0, 2)) == 0:
+        ctcs.append({"name": "C0", "ast": [draw(st.sampled_from(["IMPLIES", "EXCLUDES", "REQUIRES"])),
+                                           ["T", draw(st.sampled_from([f"M{i}" for i in range(k)]))],
+                                           ["T", draw(st.sampled_from(["Opt", "M0", f"M{k - 1}"]))]]})
+    sels = []
+    names_m = [f"M{i}" for i in range(k)]
+    for c in sorted({0, 1, lo - 1, lo, lo + 1, hi - 1, hi, hi + 1, k - 1, k} & set(range(0, k + 1))):
+        picks = [names_m[:c], list(draw(st.permutations(names_m)))[:c]]
+        for pk in picks:
+            for opt in ([], ["Opt"]):
+                sels.append(sorted(above + pk + opt))
+    sels.append(["Root"])
+    sels.append(sorted(["Root"] + names_m[:lo]))     # members without their holder (when there is one)
+    return {"model": {"root": root, "ctcs": ctcs}, "selections": sels}
